@@ -211,9 +211,14 @@ func (e *exporter) toFile(v *adt.Vertex, x ast.Expr) *ast.File {
 				pkgComments, fileComments := internal.FileComments(f)
 
 				for _, c := range pkgComments {
-					// add a newline between previous file comment and the pkg comments
-					c.List[0].Slash = c.List[0].Slash.WithRel(token.NewSection)
-					ast.AddComment(pkg, c)
+					// add a newline between previous file comment and the pkg comments,
+					// on a copy: the comments belong to the source file.
+					cg := *c
+					cg.List = slices.Clone(c.List)
+					first := *cg.List[0]
+					first.Slash = first.Slash.WithRel(token.NewSection)
+					cg.List[0] = &first
+					ast.AddComment(pkg, &cg)
 				}
 				for _, c := range fileComments {
 					ast.AddComment(fout, c)
